@@ -70,6 +70,15 @@ def run(raw, workdir):
     sensors = {k: {r: G.to_sympy(e, syms) for r, e in rd.items()} for k, rd in raw["sensors"].items()}
     sn = {k: dict(rd) for k, rd in raw["sensor_noise"].items()}
     cfg = python.Config(innovation_filtering=None)
+    vf = raw.get("valid_first")
+    if vf:
+        # history on ONE model object: a valid filter is built from it first; the verdict on the faulty definition that
+        # follows may not depend on that
+        vpn = {syms[n]: val for _k, n, val in vf["process_noise"]}
+        vsens = {k: {r: G.to_sympy(e, syms) for r, e in rd.items()} for k, rd in vf["sensors"].items()}
+        vsn = {k: dict(rd) for k, rd in vf["sensor_noise"].items()}
+        vcm = {syms[k]: val for k, val in vf["calibration_map"].items()}
+        out["valid_first_py"], _ = verdict(lambda: python.compile_ekf(model, vpn, vsens, vsn, vcm, config=cfg))
     out["py_compile"], _ = verdict(lambda: python.compile(model, cm, config=cfg))
     out["py_compile_ekf"], _ = verdict(lambda: python.compile_ekf(model, pn, sensors, sn, cm, config=cfg))
     # C++ entry points with real --header / --source paths so that the lazily generated parts run
@@ -84,6 +93,11 @@ def run(raw, workdir):
         stdout = sys.stdout
         sys.stdout = open(os.devnull, "w")
         try:
+            if vf and name == "cpp_compile_ekf":
+                out["valid_first_cpp"], _ = verdict(lambda: cpp.compile_ekf(model, vpn, vsens, vsn, vcm, config=cpp.Config()))
+                for f_ in (hdr, src):
+                    if os.path.exists(f_):
+                        os.remove(f_)
             v, r = verdict(call)
         finally:
             sys.stdout.close()
